@@ -97,7 +97,15 @@ def check_qr(ctx, A0, q0_0, q1_0, args_after, result, in_situ=False, tag='qr'):
 SLACK = 1e-12
 
 
-def expected_kept_range(sig, tol, slack=SLACK):
+def slack(tol):
+    """Two-sided rounding allowance on the threshold decision 'discarded weight <= tol': 1e-12 absolute in the ordinary range; for tolerances below 1e-9
+    (where an absolute 1e-12 would make the rule vacuous) 0.1 % of the tolerance, with a floor of 1e-26 (weights of singular values at 1e-13 of the largest
+    are known to ~1e-3 relative only)."""
+    return SLACK if tol >= 1e-9 else max(1e-3 * tol, 1e-26)
+
+
+def expected_kept_range(sig, tol, slack=None):
+    slack = globals()['slack'](tol) if slack is None else slack
     """
     Number of kept singular values prescribed by the rule 'discard the smallest values while the discarded
     relative weight stays <= tol' for the independent spectrum `sig` (descending), as an interval
@@ -144,7 +152,7 @@ def check_svd(ctx, A0, q0_0, q1_0, tol, args_after, result, in_situ=False, tag='
             ctx.ok(f'{tag}.zero-product', not np.any((u * sv) @ v), 'zero matrix must give a zero product', detail, s)
         return
     k = len(sv)
-    if k == 0 and tol + SLACK >= 1:
+    if k == 0 and tol + slack(tol) >= 1:
         # tolerance within rounding of 1: discarding everything is inside the slack of the threshold rule
         ctx.skip(f'{tag}.shapes')
         return
@@ -169,12 +177,12 @@ def check_svd(ctx, A0, q0_0, q1_0, tol, args_after, result, in_situ=False, tag='
     disc2 = float((sig[k:] ** 2).sum())
     ctx.close(f'{tag}.error-identity', abs(err2 - disc2) / nA ** 2, 1e-11, '|usv-A|^2 != sum of discarded sigma^2', detail, s)
     wdisc = disc2 / nA ** 2
-    ctx.ok(f'{tag}.discarded<=tol', wdisc <= tol + SLACK, f'discarded weight {wdisc:.3e} > tol {tol:.3e}', detail, s)
+    ctx.ok(f'{tag}.discarded<=tol', wdisc <= tol + slack(tol), f'discarded weight {wdisc:.3e} > tol {tol:.3e}', detail, s)
     if k < len(sig):
         ctx.ok(f'{tag}.kept>=discarded', kept[-1] >= sig[k] * (1 - 1e-10) - 1e-14 * sig[0],
                f'kept min {kept[-1]:.6e} < discarded max {sig[k]:.6e}', detail, s)
     # discarding one more would exceed tol
-    ctx.ok(f'{tag}.maximal-truncation', wdisc + kept[-1] ** 2 / nA ** 2 > tol - SLACK,
+    ctx.ok(f'{tag}.maximal-truncation', wdisc + kept[-1] ** 2 / nA ** 2 > tol - slack(tol),
            f'one more value (weight {kept[-1] ** 2 / nA ** 2:.3e}) could be discarded: {wdisc:.3e} + w <= tol {tol:.3e}', detail, s)
     kmin, kmax = expected_kept_range(sig, tol)
     ctx.ok(f'{tag}.kept-count', kmin <= k <= kmax,
@@ -208,13 +216,13 @@ def check_retained(ctx, s0, tol, s_after, idx, in_situ=False, tag='retained', ex
     keep = np.zeros(len(s0), dtype=bool)
     keep[idx] = True
     disc = float(wts[~keep].sum())
-    ctx.ok(f'{tag}.discarded<=tol', disc <= tol + SLACK, f'discarded weight {disc:.3e} > tol {tol:.3e}', detail, si)
+    ctx.ok(f'{tag}.discarded<=tol', disc <= tol + slack(tol), f'discarded weight {disc:.3e} > tol {tol:.3e}', detail, si)
     if keep.any() and (~keep).any():
         ctx.ok(f'{tag}.kept>=discarded', wts[keep].min() >= wts[~keep].max() * (1 - 1e-12) - 1e-30,
                'a kept value is smaller than a discarded one', detail, si)
     if keep.any():
-        ctx.ok(f'{tag}.maximal', disc + wts[keep].min() > tol - SLACK, 'one more value could be discarded', detail, si)
-    elif tol < 1 - SLACK:
+        ctx.ok(f'{tag}.maximal', disc + wts[keep].min() > tol - slack(tol), 'one more value could be discarded', detail, si)
+    elif tol < 1 - slack(tol):
         ctx.ok(f'{tag}.nonempty', False, f'everything discarded although tol={tol} < 1', detail, si)
     if exact_expected is not None:
         ctx.ok(f'{tag}.exact-count', int(keep.sum()) == exact_expected,
